@@ -129,6 +129,113 @@ let bed_obs a =
                 (if l.lb_others = [] then "-" else String.concat "," (List.map hex_of_bytes l.lb_others)) ] in
       "W=" ^ hex_of_bytes line ^ "|R=" ^ rd
 
+(* ---- BED at record level (NV.Text.BedRec) ---- *)
+let hexs l = if l = [] then "-" else String.concat "," (List.map hex_of_bytes l)
+let strand_s = function None -> "." | Some true -> "+" | Some false -> "-"
+let absent f = function None -> "~" | Some x -> f x
+
+let view_str (v : bed_view) =
+  String.concat "|"
+    [ res_str hex_of_bytes v.bv_name;
+      res_str dec_of_n v.bv_start;
+      res_str (function None -> "." | Some e -> dec_of_n e) v.bv_end;
+      absent (res_str (function None -> "-" | Some s -> hex_of_bytes s)) v.bv_nm;
+      absent (res_str dec_of_n) v.bv_score;
+      absent (res_str strand_s) v.bv_strand;
+      res_str hexs v.bv_others ]
+
+let owned_str n (v : bed_view) =
+  let k = int_of_nat n in
+  res_str (fun (b : bed) ->
+    String.concat "|"
+      [ hex_of_bytes b.b_name; dec_of_n b.b_start;
+        (match b.b_end with None -> "." | Some e -> dec_of_n e);
+        (if k >= 4 then (match b.b_nm with None -> "-" | Some s -> hex_of_bytes s) else "~");
+        (if k >= 5 then dec_of_n b.b_score else "~");
+        (if k >= 6 then strand_s b.b_strand else "~");
+        hexs b.b_others ]) (bed_owned n v)
+
+let res_nat_str r = res_str (fun k -> string_of_int (int_of_nat k)) r
+
+let bedfile_obs (a : string array) =
+  let n = a.(0) in
+  let rs = List.map (fun s -> bed_of (Array.of_list (n :: split_on ' ' s)))
+      (List.tl (Array.to_list a)) in
+  let nn = nat_of_int (int_of_string n) in
+  match bed_write_file rs with
+  | Err e -> "W=Err:" ^ err_name e
+  | Panic -> "W=Panic"
+  | Ok text ->
+      let views = bed_read_file (nat_of_int (List.length rs + 2)) nn text (bed_default nn) in
+      "W=" ^ hex_of_bytes text ^ "|R=" ^
+      String.concat ";" (List.map (function
+        | Ok v -> view_str v ^ "/" ^ owned_str nn v
+        | Err e -> "Err:" ^ err_name e
+        | Panic -> "Panic") views)
+
+let bedraw_obs (a : string array) =
+  let nn = nat_of_int (int_of_string a.(0)) in
+  let es = bed_read_raw (nat_of_int (int_of_string a.(2))) nn (bytes_of_hex a.(1)) (bed_default nn) in
+  String.concat ";" (List.map (fun (r, v) ->
+    res_nat_str r ^ "/" ^ view_str v ^ "/" ^ owned_str nn v) es)
+
+(* ---- GFF3 line kinds (NV.Text.GffLine) ---- *)
+let optv = function None -> "-" | Some v -> hex_of_bytes v
+let no_prs = fun _ -> None
+let joined l = if l = [] then "-" else String.concat ";" l
+
+let gline_str = function
+  | GDirective (k, v) -> "D:" ^ hex_of_bytes k ^ ":" ^ optv v
+  | GComment s -> "C:" ^ hex_of_bytes s
+  | GRecord NotRecord -> "R:NotRecord"
+  | GRecord (LineErr e) -> "R:Err:" ^ err_name e
+  | GRecord (Rec l) -> "R:" ^ lazy_str l
+
+let gbuf_str = function
+  | BDirective (k, v) -> "D:" ^ hex_of_bytes k ^ ":" ^ optv v
+  | BComment s -> "C:" ^ hex_of_bytes s
+  | BRecord r -> "R:" ^ res_str feature_str r
+
+let gffline_obs (a : string array) =
+  let text = bytes_of_hex a.(0) in
+  let bufs = gff_file_line_bufs no_prs text in
+  "L=" ^ joined (List.map gline_str (gff_file_lines no_prs text))
+  ^ "|O=" ^ joined (List.map gbuf_str bufs)
+  ^ "|B=" ^ joined (List.map (res_str feature_str) (gff_record_bufs bufs))
+
+let lines_of text = joined (List.map gline_str (gff_file_lines no_prs text))
+
+let gffdir_obs (a : string array) =
+  let key = bytes_of_hex a.(0) and payload = if a.(2) = "_" then "" else
+      String.init (String.length a.(2) / 2) (fun i -> Char.chr (int_of_string ("0x" ^ String.sub a.(2) (2 * i) 2))) in
+  let bytes_of_string s = List.init (String.length s) (fun i -> n_of_int (Char.code s.[i])) in
+  let value = match a.(1) with
+    | "N" -> None
+    | "S" -> Some (DString (bytes_of_hex a.(2)))
+    | "V" ->
+        (match List.map n_of_dec (split_on '.' payload) with
+         | [ma] -> Some (DVersion (ma, None))
+         | [ma; mi] -> Some (DVersion (ma, Some (mi, None)))
+         | [ma; mi; pa] -> Some (DVersion (ma, Some (mi, Some pa)))
+         | _ -> failwith "version")
+    | "R" ->
+        (match split_on ' ' payload with
+         | [nm; s; e] -> Some (DRegion (bytes_of_string nm, n_of_dec s, n_of_dec e))
+         | _ -> failwith "region")
+    | "G" ->
+        (match split_on ' ' payload with
+         | [src; nm] -> Some (DBuild (bytes_of_string src, bytes_of_string nm))
+         | _ -> failwith "build")
+    | _ -> failwith "directive kind" in
+  match gff_write_directive { d_key = key; d_value = value } with
+  | Err e -> "W=Err:" ^ err_name e
+  | Panic -> "W=Panic"
+  | Ok line -> "W=" ^ hex_of_bytes line ^ "|" ^ lines_of (line @ [lf])
+
+let gffcom_obs (a : string array) =
+  let line = gff_write_comment (bytes_of_hex a.(0)) in
+  "W=" ^ hex_of_bytes line ^ "|" ^ lines_of (line @ [lf])
+
 let handle kind a =
   match kind with
   | "gff" -> Some (gff_obs true a)
@@ -136,6 +243,11 @@ let handle kind a =
   | "gffset" -> Some (String.concat "," (List.map hex_of_bytes (gff_set_sweep (a.(0) = "seqid"))))
   | "gtf" -> Some (gtf_obs a)
   | "bed" -> Some (bed_obs a)
+  | "bedfile" -> Some (bedfile_obs a)
+  | "bedraw" -> Some (bedraw_obs a)
+  | "gffline" -> Some (gffline_obs a)
+  | "gffdir" -> Some (gffdir_obs a)
+  | "gffcom" -> Some (gffcom_obs a)
   | _ -> None
 
 let () = run_driver handle
